@@ -258,6 +258,7 @@ def run_unit(unit, case, tier="quick"):
         excfree = ObResult(f"{uname}:exc-free")
         nret = 0
         engine_limited = False
+        specified_raises = []      # raising paths whose exception is the specified behaviour (unit.raises proved)
         for pi, out in enumerate(outcomes):
             assum = out.state.all_assumptions()
             ptag = f"path{pi}"
@@ -276,6 +277,8 @@ def run_unit(unit, case, tier="quick"):
                     v.reason = "engine limit (no library contract): " + v.reason
                     engine_limited = True
                 excfree.add(v, ptag)
+                if allowed is not None and v.status == solve.PROVED:
+                    specified_raises.append(out)
                 continue
             nret += 1
             excfree.add(solve.Verdict(solve.PROVED, "engine", 0, reason="returns"), ptag)
@@ -300,12 +303,12 @@ def run_unit(unit, case, tier="quick"):
         cover = ObResult(f"{uname}:cover")
         ncov = 0
         for out in outcomes:
-            if out.kind == "return":
+            if out.kind == "return" or out in specified_raises:
                 r, _ = solve.satisfiable(out.state.all_assumptions(), timeout_s=5)
                 if r != "unsat":
                     ncov += 1
         cover.add(solve.Verdict(solve.PROVED if ncov > 0 else (solve.UNDECIDED if engine_limited else solve.REFUTED), "z3-5.1", 0,
-                                reason=f"{ncov} feasible returning paths" + (" (a path stopped at an engine limit)" if engine_limited else "")))
+                                reason=f"{ncov} feasible returning (or specified raising) paths" + (" (a path stopped at an engine limit)" if engine_limited else "")))
         res["covered_paths"] = ncov
         # side obligations (safety)
         safety = ObResult(f"{uname}:safety")
